@@ -38,7 +38,7 @@ ASSUMPTIONS = [
 ]
 BUDGET = {"quick": 85, "thorough": 900}
 ROUNDS = {"thorough": 6}
-FLOORS = {"restarts": {"quick": 120, "thorough": 1200}, "state_components_compared": {"quick": 5000, "thorough": 50000}, "trajectory_steps_compared": {"quick": 500, "thorough": 5000},
+FLOORS = {"restarts": {"quick": 120, "thorough": 1200}, "restarts_from_two_files": {"quick": 40, "thorough": 400}, "state_components_compared": {"quick": 5000, "thorough": 50000}, "trajectory_steps_compared": {"quick": 500, "thorough": 5000},
           "optimizers": 6, "operator_kinds": 5, "adaptor_kinds": 4}
 
 F64 = "torch.float64"
@@ -62,6 +62,8 @@ def cases(tier, seed):
         for m in MCMC_OPS * (2 if tier == "quick" else 3):
             out.append({"algorithm": "mcmc", "ops": m, "dense": bool(rng.random() < 0.4), "dtype": "torch.float64", "nn": False, "definition": "tensor",
                         "frequency": int(rng.choice([1, 2, 3, 5])), "seed": int(rng.integers(2**31)), "adapt": True})
+    for i, c in enumerate(out):
+        c["split"] = i % 3 == 1
     return out
 
 
@@ -334,7 +336,8 @@ def run_main(specfile, checkpoint, rec, workdir):
     o1, o2 = wrap_run(mcmc_mod.MCMC), wrap_run(optim_mod.Optimizer)
     s1, s2 = wrap_save(mcmc_mod), wrap_save(optim_mod)
     argv = sys.argv
-    sys.argv = ["torchtree", specfile] + (["-c", checkpoint] if checkpoint else [])
+    cks = [] if not checkpoint else ([checkpoint] if isinstance(checkpoint, str) else list(checkpoint))
+    sys.argv = ["torchtree", specfile] + [a for c in cks for a in ("-c", c)]
     dtype = torch.get_default_dtype()
     try:
         with contextlib.redirect_stdout(io.StringIO()), contextlib.redirect_stderr(io.StringIO()) as err:
@@ -382,8 +385,22 @@ def run_case(case):
                     os.remove(f)
             B = Recorder("B%d" % idx)
             B.rng_to_set = rng_state
+            given = ckfile
+            if case.get("split"):
+                # the documented `-c` may be repeated: the same checkpoint handed over as two files, algorithm state first, parameters second
+                with open(ckfile) as fp:
+                    entries = json.load(fp)
+                algo_part = [e for e in entries if e.get("type") not in ("torchtree.Parameter", "Parameter")]
+                par_part = [e for e in entries if e.get("type") in ("torchtree.Parameter", "Parameter")]
+                f1, f2 = ckfile + ".algorithm.json", ckfile + ".parameters.json"
+                with open(f1, "w") as fp:
+                    json.dump(algo_part, fp)
+                with open(f2, "w") as fp:
+                    json.dump(par_part, fp)
+                given = [f1, f2]
+                C["restarts_from_two_files"] = C.get("restarts_from_two_files", 0) + 1
             try:
-                err = run_main(specfile, ckfile, B, work)
+                err = run_main(specfile, given, B, work)
             except Exception as e:
                 from ..worker import _blame
 
